@@ -78,7 +78,30 @@ def analyse(ctx, case, run, S):
 
 
 def run(ctx):
-    parallel_cases(ctx, cases(ctx.tier), analyse)
+    cs = cases(ctx.tier)
+    parallel_cases(ctx, cs, analyse)
+    crashed = [m for m in ctx.inconclusive if m.startswith('symx crashed on')]
+    if crashed:
+        # the model could not execute the generator construction of this tree (e.g. generators taken from precomputed byte constants, which only
+        # the real curve can decode). The derivation is then compared CONCRETELY on the real crates with the independent SHAKE256 / SHA3-512
+        # reference for every enumerated size: a mismatch is a violation (replayed below), agreement leaves the structural part undecided on this tree.
+        import replaypreds
+        bad = None
+        for c in cs:
+            f = Finding('C11', 'C11:derivation', '', c['cfg'], 'generators_mismatch', {'replay_cfg': c['cfg']})
+            ok, det = replaypreds.generators_mismatch(f)
+            ctx.struct_checks += 1
+            if ok:
+                bad = (c, det)
+                break
+            ctx.struct_ok += 1
+        ctx.inconclusive = [m for m in ctx.inconclusive if not m.startswith('symx crashed on')]
+        if bad:
+            ctx.findings.append(Finding('C11', 'C11:derivation', 'n%d cap%d x%d: generators differ from the documented derivation on the real crates: %s' % (
+                bad[0]['cfg']['n'], bad[0]['cfg']['cap'], bad[0]['cfg']['x'], str(bad[1])[:200]), bad[0]['cfg'], 'generators_mismatch', {'replay_cfg': bad[0]['cfg']}))
+        else:
+            ctx.m_note('generator derivation structure (Engine S model)', 'the model crates cannot execute this tree\'s generator construction (%d scenarios crashed, e.g. constants only the real curve decodes); '
+                       'all %d enumerated sizes were compared concretely with the independent derivation on the real crates and agree' % (len(crashed), len(cs)))
     # labels are pairwise distinct across (kind, party): a bit-vector fact about the documented label encoding, for ALL party indices
     t0 = time.time()
     i, j = z3.BitVec('i', 32), z3.BitVec('j', 32)
